@@ -199,6 +199,13 @@ func runC15(w *World, tier string) (bool, interface{}) {
 				switch k {
 				case "CreatedAt":
 					genuine.CreatedAt = genuine.CreatedAt.Add(time.Hour)
+				case "To":
+					genuine.To = "somebody else"
+				case "DKGIdentifier":
+					// the header's round name is not among the fields an answer is matched by;
+					// the messages inside the result still say which round they belong to
+					genuine.DKGIdentifier = flipHex(genuine.DKGIdentifier)
+					w.Stats.Fault("carrier-altered-round-header")
 				case "ExtraData":
 					if string(genuine.Type) != string(types.ReinitDKG) {
 						genuine.ExtraData = []byte("carrier note")
